@@ -1,6 +1,6 @@
 """C09 — malformed Manifest text is always rejected with a syntax error, never misread.
 
-Exhaustive enumeration of four finite text families; every text is loaded by the real
+Exhaustive enumeration of seven finite text families; every text is loaded by the real
 ``gemato.manifest.ManifestFile.load`` (from an ``io.StringIO``, ``verify_openpgp=False``)
 and judged against the independent three-valued reference parser ``gverif.refmanifest``:
 
@@ -11,6 +11,18 @@ and judged against the independent three-valued reference parser ``gverif.refman
   C  every escape \\xHH, \\uHHHH, \\UHHHHHHHH (full ranges, see ESC_* below)
   D  single byte-level mutations of five valid Manifests (thorough: all ordered pairs
      of mutations of the shortest one)
+  E  the character alphabet of the hex-digit positions of \\xHH / \\uHHHH / \\UHHHHHHHH:
+     E1 = every choice of <= 2 positions (thorough: all 4 of \\u, <= 3 of \\U) of a valid
+     base escape, each replaced by every member of a 40-member alphabet (ASCII digit,
+     a-f, A-F, non-hex ASCII letters, ASCII punctuation, position deleted, decimal digits
+     (category Nd) of 8 non-ASCII scripts incl. two astral ones, other non-ASCII
+     digit-like / letter-like characters); E2 = every position independently one
+     representative of a character class (8 classes for \\x and \\u, 4 (thorough 6) for \\U)
+  F  the size field: every string of length <= 3 (thorough <= 4) over a 19-character
+     alphabet (ASCII digits, sign, underscore, dot, e, x, a, backslash, non-ASCII Nd
+     digits of 4 scripts, other non-ASCII numerics)
+  G  the TIMESTAMP value: every choice of <= 2 of the 20 positions of two valid
+     timestamps, each replaced by every member of a 26- (thorough 46-) member alphabet
 
 The generators of A and D are re-used by C08 (fixed-point check of accepted texts).
 """
@@ -26,8 +38,14 @@ from gverif.evidence import Stats
 
 PID = 'C09'
 LEVEL = 'exploration'
-RULE = ('four exhaustively enumerated text families (A grammar product, B token sequences with '
-        'every line split, C every \\x/\\u/\\U escape value, D byte mutations of valid Manifests); '
+RULE = ('seven exhaustively enumerated text families (A grammar product, B token sequences with '
+        'every line split, C every \\x/\\u/\\U escape value, D byte mutations of valid Manifests, '
+        'E character alphabet of the hex-digit positions of the three escape forms [E1: <= 2 '
+        '(thorough: \\u all 4, \\U <= 3) positions of a valid base escape x 40-member alphabet '
+        'incl. deletion and non-ASCII decimal digits of 8 scripts; E2: all positions independently '
+        'over one representative per character class], F all size strings of length <= 3 '
+        '(thorough 4) over a 19-character alphabet, G <= 2 of the 20 positions of a valid timestamp '
+        'x 26- (thorough 46-) member alphabet); '
         'each text = one load by the real parser, judged by the reference parser (ok / reject / '
         'dontcare) plus the unconditional rule that only ManifestSyntaxError/ManifestUnsignedData '
         'may escape.  Texts of B and C are pairwise distinct by construction; A and D contain a '
@@ -35,7 +53,11 @@ RULE = ('four exhaustively enumerated text families (A grammar product, B token 
         'To bound memory the distinct-case descriptor is coarser than the text: A = (tag, path, '
         'size, tail, extra) ignoring separator/ending/context; B = the token sequence for length '
         '<= 4, (length, first four tokens) beyond; C = (escape form, value >> 12); D = (manifest, '
-        'position, operation[, second mutation position]).  A descriptor is non-trivial when at '
+        'position, operation[, second mutation position]); E1 = (form, base, position subset, '
+        'alphabet member at the first chosen position), E2 = (form, first five classes); F = first '
+        'three characters; G = (base, position subset, first alphabet member).  E, F and G contain '
+        'coinciding texts where a replacement equals the base character or a deletion shifts the '
+        'following text in; they are evaluated again.  A descriptor is non-trivial when at '
         'least one of its texts had a definite reference verdict (ok or reject) and contained a '
         'non-blank line; distinct_nontrivial counts those descriptors.')
 ASSUMPTIONS = [
@@ -51,6 +73,16 @@ ASSUMPTIONS = [
     'accept/reject',
     'small scope: one to five lines per text, fields from fixed menus; totality over arbitrary '
     'long texts is not claimed',
+    'families E/F/G: the reference grammar admits ASCII hex digits only in an escape (anything '
+    'else in a digit position, a non-ASCII decimal digit included, makes the escape invalid: '
+    'MUST reject); for the size field the property says only "non-numeric or negative", so a '
+    'string that is an integer numeral in some notation other than plain ASCII digits (+5, 1_0, '
+    'non-ASCII Nd digits) is DONT_CARE for accept/reject while everything that is no integer '
+    'numeral at all MUST be rejected; the same DONT_CARE applies to timestamps written with '
+    'non-ASCII digits.  Non-ASCII characters are represented by the members of the stated '
+    'alphabets (category Nd of Arabic-Indic, Extended Arabic-Indic, Devanagari, Bengali, Thai, '
+    'Fullwidth, Mathematical Bold, Adlam; No/Nl/Lo numerics; look-alike letters); other '
+    'scripts are not claimed.  In every case only the two library exceptions may escape',
 ]
 
 ALLOWED_EXC = ('ManifestSyntaxError', 'ManifestUnsignedData')
@@ -160,7 +192,7 @@ def judge(text, m, o, ref):
     return label, out
 
 
-def check_text(text, stats=None, case=None):
+def check_text(text, stats=None, case=None, fam=None):
     """Load one text with the real parser and judge it.  -> (violations, verdict)."""
     ref = rm.parse_ex(text)
     m, o = load_text(text)
@@ -169,6 +201,8 @@ def check_text(text, stats=None, case=None):
         stats.evaluations += 1
         stats.transitions += 1
         stats.outcomes[label] += 1
+        if fam:
+            stats.counters[f'outcome_{fam} {label}'] += 1
         if ref[0] == 'dontcare':
             stats.dontcare[ref[1]] += 1
         else:
@@ -189,6 +223,7 @@ def record_violation(stats, v):
 
 
 def setup(tier, seed, base):
+    _selfcheck_alphabets()
     sigcap.setup()
 
 
@@ -468,6 +503,224 @@ def mutation_texts(spec, seed, counters=None):
                     yield r
 
 
+# ---------------------------------------------------------------- family E: escape digit alphabet
+
+# What may stand in a hex-digit position of an escape.  The reference grammar admits the 22
+# ASCII hex digits only; every other member must make the escape invalid.
+ALPHA_CLASSES = [
+    ('digit', ['0', '1', '9']),
+    ('lower_hex', ['a', 'f']),
+    ('upper_hex', ['A', 'F']),
+    ('ascii_letter', ['g', 'G', 'x', 'z']),                    # x: "0x" prefix of int(s, 16)
+    ('ascii_punct', ['+', '-', '_', '.', '/', '\\']),          # sign / digit-group characters of int()
+    ('deleted', ['']),
+    # decimal digits (category Nd) outside ASCII: Arabic-Indic 0 and 2, Extended Arabic-Indic 2,
+    # Devanagari 0 and 2, Bengali 2, Thai 2, Fullwidth 0 and 2, Mathematical Bold 2, Adlam 2
+    ('nonascii_Nd', ['\u0660', '\u0662', '\u06f2', '\u0966', '\u0968', '\u09e8', '\u0e52',
+                     '\uff10', '\uff12', '\U0001d7d0', '\U0001e952']),
+    # numeric but not decimal: superscript two, one half, circled one (No); roman two, ideographic
+    # zero (Nl); CJK two (Lo)
+    ('nonascii_numeric', ['\u00b2', '\u00bd', '\u2460', '\u2161', '\u3007', '\u4e8c']),
+    # look-alike letters: fullwidth A / f, Cyrillic a; e-acute; zero width space (Cf)
+    ('nonascii_other', ['\uff21', '\uff46', '\u0430', '\u00e9', '\u200b']),
+]
+ALPHA_E = [c for _n, cs in ALPHA_CLASSES for c in cs]
+ESC_WIDTH = {'x': 2, 'u': 4, 'U': 8}
+E_BASES = {'x': ['2F'], 'u': ['002f', '20AC'], 'U': ['0000002F', '0001f600']}
+
+
+def e_depth(tier, form, bi):
+    """Largest number of simultaneously replaced positions (family E1)."""
+    if form == 'x':
+        return 2                                   # = all positions
+    if form == 'u':
+        return 4 if tier != 'quick' and bi == 0 else 2      # thorough: all positions (once)
+    if tier == 'quick':
+        return 2
+    return 3 if bi == 0 else 2
+
+
+def _subsets(n, depth):
+    return [c for k in range(depth + 1) for c in itertools.combinations(range(n), k)]
+
+
+def esc_contexts(seed):
+    n = NAMES[seed % len(NAMES)]
+    d = NAMES[(seed + 1) % len(NAMES)]
+    return ['DATA %s 0\n', 'IGNORE %s\n', f'DATA {n}%s{d} 3 MD5 00\n']
+
+
+# E2: one representative per class and position.  Coarser class sets for the 8-position form.
+E2_CLASSES = {
+    8: ['digit', 'lower_hex', 'upper_hex', 'ascii_letter', 'ascii_punct', 'nonascii_Nd',
+        'nonascii_numeric', 'nonascii_other'],
+    6: ['digit', 'hex_letter', 'ascii_nonhex', 'nonascii_Nd', 'nonascii_numeric', 'nonascii_other'],
+    4: ['hex', 'ascii_nonhex', 'nonascii_Nd', 'nonascii_nondecimal'],
+}
+_E2_MERGED = {
+    'hex_letter': ['lower_hex', 'upper_hex'],
+    'ascii_nonhex': ['ascii_letter', 'ascii_punct'],
+    'hex': ['digit', 'lower_hex', 'upper_hex'],
+    'nonascii_nondecimal': ['nonascii_numeric', 'nonascii_other'],
+}
+
+
+def e2_nclasses(tier, form):
+    if form != 'U':
+        return 8
+    return 4 if tier == 'quick' else 6
+
+
+def e2_rep(cls, pos, width, seed):
+    """The representative of character class ``cls`` at digit position ``pos``: members of the
+    class taken in rotation over position (and seed); the digit class is '0' in the leading
+    positions so that all-hex combinations include in-range values."""
+    if cls in _E2_MERGED:
+        parts = _E2_MERGED[cls]
+        cls = parts[(pos + seed) % len(parts)]
+    if cls == 'digit':
+        return '0' if pos < width - 2 else '2719'[(pos + seed) % 4]
+    members = dict(ALPHA_CLASSES)[cls]
+    return members[(pos + seed) % len(members)]
+
+
+def e_shards(tier):
+    out = []
+    for form in 'xuU':
+        w = ESC_WIDTH[form]
+        for bi in range(len(E_BASES[form])):
+            out += [('E', form, bi, sub) for sub in _subsets(w, e_depth(tier, form, bi))]
+        k = e2_nclasses(tier, form)
+        out += [('E2', form, c0, c1) for c0 in range(k) for c1 in range(k)]
+    # biggest first
+    out.sort(key=lambda s: -(len(s[3]) if s[0] == 'E' else ESC_WIDTH[s[1]] - 5))
+    return out
+
+
+def e_texts(spec, tier, seed):
+    ctxs = esc_contexts(seed)
+    form = spec[1]
+    w = ESC_WIDTH[form]
+    if spec[0] == 'E':
+        _f, _form, bi, sub = spec
+        base = E_BASES[form][bi]
+        for choice in itertools.product(range(len(ALPHA_E)), repeat=len(sub)):
+            digs = list(base)
+            for p, k in zip(sub, choice):
+                digs[p] = ALPHA_E[k]
+            e = '\\' + form + ''.join(digs)
+            desc = ('E', form, bi, sub, choice[0] if choice else -1)
+            for c in ctxs:
+                yield desc, c % e
+    else:
+        _f, _form, c0, c1 = spec
+        k = e2_nclasses(tier, form)
+        names = E2_CLASSES[k]
+        for rest in itertools.product(range(k), repeat=w - 2):
+            cl = (c0, c1) + rest
+            e = '\\' + form + ''.join(e2_rep(names[c], p, w, seed) for p, c in enumerate(cl))
+            desc = ('E2', form, cl[:5])
+            for c in ctxs:
+                yield desc, c % e
+
+
+# ---------------------------------------------------------------- family F: size strings
+
+ALPHA_F = ['0', '1', '9', '-', '+', '_', '.', 'e', 'x', 'a', '\\',
+           '\u0663', '\u0969', '\uff13', '\U0001d7d1',              # Nd three: Arabic-Indic, Devanagari, Fullwidth, Math Bold
+           '\u00b2', '\u00bd', '\u2162', '\u3007']                  # superscript two, one half, roman three, ideographic zero
+
+
+def f_maxlen(tier):
+    return 3 if tier == 'quick' else 4
+
+
+def f_shards(tier):
+    return [('F', i) for i in range(len(ALPHA_F))]
+
+
+def f_texts(spec, tier, seed):
+    _f, i = spec
+    n = NAMES[seed % len(NAMES)]
+    d = NAMES[(seed + 1) % len(NAMES)]
+    ctxs = [f'DATA {n} %s\n', f'DIST {d}{n} %s MD5 00\n']
+    for ln in range(1, f_maxlen(tier) + 1):
+        for rest in itertools.product(range(len(ALPHA_F)), repeat=ln - 1):
+            seq = (i,) + rest
+            sz = ''.join(ALPHA_F[k] for k in seq)
+            desc = ('F', seq[:3])
+            for c in ctxs:
+                yield desc, c % sz
+
+
+# ---------------------------------------------------------------- family G: timestamp characters
+
+TS_BASES = ['2017-01-01T00:00:00Z', '1999-12-31T23:59:59Z']
+ALPHA_G_QUICK = ['0', '1', '2', '5', '9', '-', ':', 'T', 'Z', 't', 'z', '+', '.', '_', 'a', '/',
+                 '\\', '', '\u0662', '\u06f2', '\u0968', '\uff12', '\U0001d7d0',
+                 '\u00b2', '\u2161', '\u3007']
+
+
+def alpha_g(tier):
+    if tier == 'quick':
+        return ALPHA_G_QUICK
+    return ALPHA_G_QUICK + [c for c in ALPHA_E if c not in ALPHA_G_QUICK]
+
+
+def g_shards(tier):
+    return [('G', bi, p0) for bi in range(len(TS_BASES)) for p0 in range(-1, len(TS_BASES[bi]))]
+
+
+def g_texts(spec, tier, seed):
+    """Shard (bi, p0): the base itself (p0 == -1) or all replacements at position p0 alone and
+    at p0 together with one later position."""
+    _f, bi, p0 = spec
+    base = TS_BASES[bi]
+    n = NAMES[seed % len(NAMES)]
+    ctxs = ['TIMESTAMP %s\n', f'TIMESTAMP %s\nDATA {n} 0\n']
+    if p0 < 0:
+        for c in ctxs:
+            yield ('G', bi, (), -1), c % base
+        return
+    al = alpha_g(tier)
+    subs = [(p0,)] + [(p0, q) for q in range(p0 + 1, len(base))]
+    for sub in subs:
+        for choice in itertools.product(range(len(al)), repeat=len(sub)):
+            chars = list(base)
+            for p, k in zip(sub, choice):
+                chars[p] = al[k]
+            ts = ''.join(chars)
+            desc = ('G', bi, sub, choice[0])
+            for c in ctxs:
+                yield desc, c % ts
+
+
+def _selfcheck_alphabets():
+    """The alphabets are what the docstring says they are (checked against unicodedata)."""
+    import unicodedata as ud
+    cls = dict(ALPHA_CLASSES)
+    assert len(ALPHA_E) == len(set(ALPHA_E)) == 40, len(ALPHA_E)
+    assert all(c.isascii() for k in ('digit', 'lower_hex', 'upper_hex', 'ascii_letter', 'ascii_punct')
+               for c in cls[k])
+    assert all(c in rm._HEX for k in ('digit', 'lower_hex', 'upper_hex') for c in cls[k])
+    assert not any(c in rm._HEX for k in ('ascii_letter', 'ascii_punct') for c in cls[k])
+    assert all(ud.category(c) == 'Nd' and not c.isascii() for c in cls['nonascii_Nd'])
+    scripts = {ud.name(c).rsplit(' DIGIT ', 1)[0] for c in cls['nonascii_Nd']}
+    assert len(scripts) == 8, scripts
+    assert all(ud.category(c) != 'Nd' and not c.isascii()
+               for k in ('nonascii_numeric', 'nonascii_other') for c in cls[k])
+    assert all(ud.numeric(c, None) is not None for c in cls['nonascii_numeric'])
+    assert not any(c.isspace() for c in ALPHA_E + ALPHA_F + ALPHA_G_QUICK)
+    assert len(ALPHA_F) == len(set(ALPHA_F)) == 19
+    assert len(ALPHA_G_QUICK) == len(set(ALPHA_G_QUICK)) == 26 and len(alpha_g('thorough')) == 46
+    assert all(ud.category(c) == 'Nd' for c in ALPHA_F[11:15])
+    for form, bases in E_BASES.items():
+        for b in bases:
+            assert len(b) == ESC_WIDTH[form] and rm.unescape_path('\\' + form + b)[0] == 'ok'
+    for b in TS_BASES:
+        assert len(b) == 20 and rm.parse(f'TIMESTAMP {b}\n')[0] == 'ok'
+
+
 # ---------------------------------------------------------------- shards
 
 def shards(tier, seed):
@@ -475,8 +728,10 @@ def shards(tier, seed):
     c = c_shards(tier)
     a = grammar_shards(tier)
     d = mutation_shards(tier, seed)
+    e = e_shards(tier)
+    fg = g_shards(tier) + f_shards(tier)
     # most expensive first
-    return b + c + a + d if tier == 'thorough' else c + b + a + d
+    return b + e + c + a + d + fg if tier == 'thorough' else c + b + a + d + e + fg
 
 
 def texts_for(spec, tier, seed, counters=None):
@@ -487,7 +742,16 @@ def texts_for(spec, tier, seed, counters=None):
         return b_texts(spec, tier, seed)
     if f == 'C':
         return c_texts(spec, seed)
+    if f in ('E', 'E2'):
+        return e_texts(spec, tier, seed)
+    if f == 'F':
+        return f_texts(spec, tier, seed)
+    if f == 'G':
+        return g_texts(spec, tier, seed)
     return mutation_texts(spec, seed, counters)
+
+
+NEW_FAMILIES = 'EFG'
 
 
 def run_shard(spec, tier, seed, scratch):
@@ -502,13 +766,15 @@ def run_shard(spec, tier, seed, scratch):
     n = 0
     # a few written-out cases: from the first shard of each family only
     sample_at = {('A', 3, 0): (1, 40000), ('B', 0, 4): (2000,), ('C', 'x', 0, 0x100): (200,),
-                 ('D', 2, 'replace'): (100, 777)}.get(spec, ())
+                 ('D', 2, 'replace'): (100, 777), ('E', 'u', 0, (1, 2)): (2500,),
+                 ('F', 11): (30,), ('G', 0, 3): (1000,)}.get(spec, ())
     for desc, text in texts_for(spec, tier, seed, stats.counters):
         if desc != cur:
             if cur is not None:
                 stats.case(cur, cur_nt)
             cur, cur_nt = desc, False
-        _vs, verdict = check_text(text, stats, {'text': text, 'family': fam, 'desc': repr(desc)})
+        _vs, verdict = check_text(text, stats, {'text': text, 'family': fam, 'desc': repr(desc)},
+                                  fam if fam in NEW_FAMILIES else None)
         if verdict != 'dontcare' and text.strip():
             cur_nt = True
         n += 1
@@ -517,6 +783,8 @@ def run_shard(spec, tier, seed, scratch):
     if cur is not None:
         stats.case(cur, cur_nt)
     stats.counters['texts_family_' + fam] += n
+    if spec[0] in ('E', 'E2'):
+        stats.counters[f'texts_family_{spec[0] if spec[0] == "E2" else "E1"}_form_{spec[1]}'] += n
     return stats
 
 
@@ -526,9 +794,25 @@ def finish(total, tier):
     for need in ('ok', 'reject', 'dontcare'):
         if need not in seen:
             errs.append(f'vacuity: no text with reference verdict {need!r}')
-    for fam in 'ABCD':
+    for fam in 'ABCD' + NEW_FAMILIES:
         if not total.counters.get('texts_family_' + fam):
             errs.append(f'vacuity: family {fam} produced no text')
+    for fam in NEW_FAMILIES:
+        # each of these families must exercise both sides of the grammar: a single outcome
+        # class (or no accepted / no rejected text) means the alphabet does not reach the field
+        cls = {k.split(' ', 1)[1] for k, v in total.counters.items()
+               if k.startswith(f'outcome_{fam} ') and v}
+        if len(cls) < 2:
+            errs.append(f'vacuity: family {fam} produced the single outcome class {sorted(cls)}')
+        for need in ('ok/ret', 'reject/exc:ManifestSyntaxError', 'dontcare/'):
+            if need == 'dontcare/' and fam == 'E':
+                continue        # the escape grammar has no open region of its own
+            if not any(c.startswith(need) for c in cls):
+                errs.append(f'vacuity: family {fam} has no text with outcome {need}*')
+    for form in 'xuU':
+        for part in ('E1', 'E2'):
+            if not total.counters.get(f'texts_family_{part}_form_{form}'):
+                errs.append(f'vacuity: family {part} produced no \\{form} escape')
     if not any(k.startswith('ok/ret') for k in total.outcomes):
         errs.append('vacuity: no well-formed text was accepted')
     if not any(k.startswith('reject/exc:ManifestSyntaxError') for k in total.outcomes):
@@ -550,4 +834,16 @@ def extra_evidence(total, tier):
              'embedded between two names, upper and (where different) lower case hex',
         'D': f'5 manifests x every position x {MUT_OPS} x {len(MUT_BYTES)} bytes '
              '(valid UTF-8 only)' + ('; all ordered pairs on manifest 0' if tier == 'thorough' else ''),
+        'E': 'E1: per escape form and valid base escape ' + repr(E_BASES) + ', every set of <= '
+             + repr({f: [e_depth(tier, f, bi) for bi in range(len(E_BASES[f]))] for f in 'xuU'})
+             + f' digit positions, each replaced by every member of the {len(ALPHA_E)}-member '
+             'alphabet ' + repr([(n, len(c)) for n, c in ALPHA_CLASSES]) + '; E2: every position '
+             'independently one representative of '
+             + repr({f: E2_CLASSES[e2_nclasses(tier, f)] for f in 'xuU'})
+             + '; each escape as DATA path, IGNORE path and embedded between two names',
+        'F': f'sum over n=1..{f_maxlen(tier)} of {len(ALPHA_F)}^n size strings over '
+             + ascii(ALPHA_F) + ' x 2 line contexts (DATA without, DIST with a checksum pair)',
+        'G': f'{len(TS_BASES)} valid timestamps x every set of <= 2 of 20 positions x '
+             f'{len(alpha_g(tier))}-member alphabet ' + ascii(alpha_g(tier))
+             + ' x 2 contexts (alone, followed by a DATA line)',
     }}
